@@ -115,6 +115,7 @@ def tokenOfMsg (msg : Str) : Option Str :=
         | _, [] => []
         | f + 1, '\\' :: 'n' :: t => '\n' :: unesc f t
         | f + 1, '\\' :: 't' :: t => '\t' :: unesc f t
+        | f + 1, '\\' :: 'r' :: t => '\r' :: unesc f t
         | f + 1, '\\' :: c :: t => c :: unesc f t
         | f + 1, c :: t => c :: unesc f t
       some (unesc (body.length + 1) body)
